@@ -5,6 +5,8 @@ Props/C01Payload3.lean.
 import PsdVerif.Lemmas.Payload3Curves
 import PsdVerif.Lemmas.Payload3Vector
 import PsdVerif.Lemmas.Payload3Filter
+import PsdVerif.Lemmas.Payload3Typed
+import PsdVerif.Lemmas.PayloadSamples
 import PsdVerif.Model.DescriptorTables
 
 namespace PsdVerif.Payload3.Samples
@@ -39,6 +41,23 @@ def printFlags9 : PrintFlags := ⟨ri [1, 0, 0, 0, 0, 0, 0, 1], some (ri [1])⟩
 def printFlags8 : PrintFlags := ⟨ri [1, 0, 0, 0, 0, 0, 0, 1], none⟩
 def displayInfo : Row × List Row := (ri [1], [ri [0, 65535, 0, 0, 0, 100, 0], ri [2, 1, 2, 3, 4, 50, 2]])
 def halftones : List Row := [ri [3538944, 1, 2949120, 1, 0, 1], ri [0, 2, -65536, 6, 1, 0]]
+
+def s8BIM : B := [56, 66, 73, 77]
+
+/-- version info, slices (version 6, typed down to the per-slice descriptor), a raw plug-in resource -/
+def typedResources : List TRes := [
+  ⟨s8BIM, 1057, [], .typed .versionInfo versionInfo⟩,
+  ⟨s8BIM, 1050, [115, 108], .typed .slices slices⟩,
+  ⟨s8BIM, 1037, [], .typed .integer (ri [30])⟩,
+  ⟨s8BIM, 4000, [97], .raw [1, 2, 3]⟩]
+
+/-- the deep sample document of Props/C01Payload.lean (16-bit PSB, layers in `Lr16`) with typed resources -/
+def resDoc : ResPSD :=
+  ⟨Payload.Samples.deepDoc.header, [], typedResources, Payload.Samples.deepDoc.layerAndMask, Payload.Samples.deepDoc.imageData⟩
+
+/-- raw bytes under a registered id, a typed payload under another id than its class's -/
+def rawUnderTypedKey : TRes := ⟨s8BIM, 1057, [], .raw [0, 0, 0, 1]⟩
+def typedUnderOtherKey : TRes := ⟨s8BIM, 1050, [], .typed .integer (ri [30])⟩
 
 /-! ### adjustments -/
 
